@@ -457,8 +457,7 @@ pub fn h_client_hello_sid33<S: Src>(s: &mut S) {
     let r = parse_tls_handshake_client_hello(&buf[..n]);
     vassert!(s, class_of(&r) == Class::Error, "client_hello: session-id length above 32 is rejected");
 }
-harness!(leaf_hs_client_hello_sid0, unwind = 5, h_client_hello::<_, 46, 0>);
-harness!(leaf_hs_client_hello_sid1, unwind = 5, h_client_hello::<_, 47, 1>);
-harness!(leaf_hs_client_hello_sid32, unwind = 5, h_client_hello::<_, 78, 32>);
+// (direct ClientHello harnesses with the real list helpers exhaust memory in CBMC (>14 GB, measured); the body is
+// verified modularly instead: mod_client_hello in int_c04_private.rs + leaf_cipher_suites / leaf_compressions)
 harness!(leaf_hs_client_hello_sid33, unwind = 6, h_client_hello_sid33);
 harness!(leaf_hs_certificate_request, unwind = 12, h_certificate_request::<_, 9>);
